@@ -24,7 +24,7 @@ Polys == /\ E.ev = "polys"
             /\ \A f \in {"add", "sub", "mul", "scale", "rlz_a", "div", "syn", "synr", "eval_many", "from_roots", "interp", "interp_keep"} : CanonP(R[f])
             /\ PA!PEq(TP(R.add), PA!PAdd(a, b)) /\ Len(R.add) = PA!MaxLen(a, b)
             /\ PA!PEq(TP(R.sub), PA!PSub(a, b))
-            /\ PA!PEq(TP(R.mul), PA!PMul(a, b)) /\ Len(R.mul) = Len(a) + Len(b) - 1
+            /\ PA!PEq(TP(R.mul), PA!PMul(a, b)) /\ ((Len(a) > 0 /\ Len(b) > 0) => Len(R.mul) = Len(a) + Len(b) - 1)
             /\ PA!PEq(TP(R.scale), PA!PScale(a, k)) /\ Len(R.scale) = Len(a)
             /\ R.degree_a = PA!DegreeOf(a) /\ R.degree_b = PA!DegreeOf(b)
             /\ PA!PEq(TP(R.rlz_a), a) /\ (Len(R.rlz_a) = PA!DegreeOf(a) + 1 \/ (PA!IsZeroPoly(a) /\ Len(R.rlz_a) <= 1))
